@@ -1463,7 +1463,8 @@ class QvmCpu:
         s = self.pop(CellType.STRING)
         if n < 0:
             self.trap(TrapCode.INVALID_OPERAND_VALUE)
-        self.push(CellType.STRING, s[-n:])
+        # (s[-0:] would be the whole string)
+        self.push(CellType.STRING, s[-n:] if n > 0 else '')
 
     def _exec_sub(self):
         b = self.pop()
